@@ -1,3 +1,6 @@
 package sim
 
-func setSizeLimit(uint64) {}
+import "github.com/streamingfast/substreams/storage/store"
+
+// setSizeLimit sets the additional store size limit of hook H4 (0 = off).
+func setSizeLimit(n uint64) { store.VerifSizeLimit = n }
